@@ -39,3 +39,138 @@ pub struct Dump {
     /// `(key address, key length, target identifier address)` of `foreign_identifier_lookup`.
     pub foreign_identifier_lookup: Vec<(usize, usize, usize)>,
 }
+
+/// Fork/join shim that shadows `rayon` inside `system::schedule::stage`.
+///
+/// Records the fork/join structure of a schedule run and can execute the two
+/// closures of every `join` sequentially in a chosen order, so that every
+/// admissible order of a fork/join tree can be replayed deterministically.
+#[cfg(feature = "rayon")]
+pub mod rayon_shim {
+    extern crate std;
+
+    use alloc::vec::Vec;
+    use core::sync::atomic::{
+        AtomicU64,
+        AtomicUsize,
+        Ordering,
+    };
+    use std::{
+        cell::Cell,
+        sync::Mutex,
+    };
+
+    /// One recorded event.
+    #[derive(Clone, Copy, Debug, PartialEq, Eq)]
+    pub enum Event {
+        /// A `join` was entered: `(join id, parent join id, parent side)`; parent id 0 = root.
+        Fork(u64, u64, u8),
+        /// A side (0 = first closure, 1 = second closure) of a join began.
+        Begin(u64, u8),
+        /// A side of a join ended.
+        End(u64, u8),
+        /// Both closures of the join have returned.
+        Join(u64),
+        /// A mark made by the harness from inside a closure: `(tag, parent join id, parent side)`.
+        Mark(u64, u64, u8),
+    }
+
+    static EVENTS: Mutex<Vec<Event>> = Mutex::new(Vec::new());
+    static NEXT_ID: AtomicU64 = AtomicU64::new(1);
+    /// 0 = real `rayon::join`; 1 = sequential, first closure first; 2 = sequential, second closure
+    /// first; 3 = sequential, order taken bit by bit from `ORDER` (bit k of the k-th join).
+    static MODE: AtomicUsize = AtomicUsize::new(0);
+    static ORDER: AtomicU64 = AtomicU64::new(0);
+    static JOIN_COUNT: AtomicU64 = AtomicU64::new(0);
+
+    std::thread_local! {
+        static CURRENT: Cell<(u64, u8)> = Cell::new((0, 0));
+    }
+
+    fn push(event: Event) {
+        match EVENTS.lock() {
+            Ok(mut events) => events.push(event),
+            Err(poisoned) => poisoned.into_inner().push(event),
+        }
+    }
+
+    /// Select the execution mode and the order bits; clears the recording.
+    pub fn configure(mode: usize, order: u64) {
+        MODE.store(mode, Ordering::SeqCst);
+        ORDER.store(order, Ordering::SeqCst);
+        JOIN_COUNT.store(0, Ordering::SeqCst);
+        NEXT_ID.store(1, Ordering::SeqCst);
+        match EVENTS.lock() {
+            Ok(mut events) => events.clear(),
+            Err(poisoned) => poisoned.into_inner().clear(),
+        }
+    }
+
+    /// Take the events recorded so far.
+    pub fn take() -> Vec<Event> {
+        match EVENTS.lock() {
+            Ok(mut events) => core::mem::take(&mut *events),
+            Err(poisoned) => core::mem::take(&mut *poisoned.into_inner()),
+        }
+    }
+
+    /// Record a mark attributed to the innermost enclosing closure of this thread.
+    pub fn mark(tag: u64) {
+        let (parent, side) = CURRENT.with(Cell::get);
+        push(Event::Mark(tag, parent, side));
+    }
+
+    struct Restore((u64, u8));
+
+    impl Drop for Restore {
+        fn drop(&mut self) {
+            CURRENT.with(|current| current.set(self.0));
+        }
+    }
+
+    fn run_side<F, R>(id: u64, side: u8, f: F) -> R
+    where
+        F: FnOnce() -> R,
+    {
+        let _restore = Restore(CURRENT.with(|current| current.replace((id, side))));
+        push(Event::Begin(id, side));
+        let result = f();
+        push(Event::End(id, side));
+        result
+    }
+
+    /// Drop-in replacement for `rayon::join`.
+    pub fn join<A, B, RA, RB>(oper_a: A, oper_b: B) -> (RA, RB)
+    where
+        A: FnOnce() -> RA + Send,
+        B: FnOnce() -> RB + Send,
+        RA: Send,
+        RB: Send,
+    {
+        let id = NEXT_ID.fetch_add(1, Ordering::SeqCst);
+        let (parent, side) = CURRENT.with(Cell::get);
+        push(Event::Fork(id, parent, side));
+        let index = JOIN_COUNT.fetch_add(1, Ordering::SeqCst);
+        let result = match MODE.load(Ordering::SeqCst) {
+            0 => ::rayon::join(|| run_side(id, 0, oper_a), || run_side(id, 1, oper_b)),
+            mode => {
+                let second_first = match mode {
+                    1 => false,
+                    2 => true,
+                    _ => (ORDER.load(Ordering::SeqCst) >> (index % 64)) & 1 == 1,
+                };
+                if second_first {
+                    let result_b = run_side(id, 1, oper_b);
+                    let result_a = run_side(id, 0, oper_a);
+                    (result_a, result_b)
+                } else {
+                    let result_a = run_side(id, 0, oper_a);
+                    let result_b = run_side(id, 1, oper_b);
+                    (result_a, result_b)
+                }
+            }
+        };
+        push(Event::Join(id));
+        result
+    }
+}
